@@ -4,3 +4,5 @@ import "pgregory.net/rapid"
 
 func genSteppedSeed(seed int) Case { return rapid.Custom(genStepped).Example(seed) }
 func genBurstSeed(seed int) Case   { return rapid.Custom(genBurst).Example(seed) }
+
+func rapidExamplePing(seed int) Case { return rapid.Custom(genPing).Example(seed) }
